@@ -314,18 +314,33 @@ template <typename FN, typename TA, typename TB, typename DT, int KA, int KB> in
 // the alphabet is a plain number (operand kind S).  ALL ordered pairs are enumerated - compatible ones (every broadcast pattern class:
 // same shape, size-1 axis on the left / right / in the middle / in both operands, rank extension of either operand) and incompatible
 // ones (Nothing expected).
-//   pairs   : quick S(1..3,3)^2 = 1521, thorough S(1..4,3)^2 = 14400
+//   pairs   : quick S(1..3,3)^2 = 1521, thorough S(1..4,3)^2 = 14400; both tiers + the pairs of S(1..2,4) containing an extent 4 (384);
+//             thorough + 9 larger pairs in both orders (up to 120 elements)
 //   triples : quick S(1..3,2)^3 + S(1..2,3)^3 = 2744 + 1728, thorough S(1..3,3)^3 = 59319            (where)
-//   single  : quick S(1..3,3) + S(4,2), thorough S(1..4,3)                                          (unary; the array side of array-with-scalar)
+//   single  : quick S(1..3,3) + S(4,2), thorough S(1..4,3); both + S(1..2,4) with an extent 4; thorough + 4 larger shapes   (unary; the array side of array-with-scalar)
 //   outer   : quick S(1..2,3)^2 = 144 (DESIGN.md), thorough S(1..3,3)^2 = 1521
+inline bool has_extent4(const L& s) { for (long v : s) if (v >= 4) return true; return false; }
+// "sampled larger" of the property's quantifier: a fixed list (no sampling) of larger operands, thorough tier only
+inline const std::vector<std::pair<L, L>>& larger_pairs() {
+    static const std::vector<std::pair<L, L>> p = {
+        {{7}, {7}}, {{5, 1}, {1, 6}}, {{4, 1, 5}, {3, 5}}, {{2, 3, 4, 5}, {4, 1}}, {{6}, {2, 1}}, {{5, 7}, {7}}, {{2, 1, 4, 1}, {3, 1, 5}}, {{5, 7}, {5}}, {{4, 5}, {5, 4}},
+    };
+    return p;
+}
 template <typename F> inline void each_shape_pair(bool thorough, F&& f) {
     std::vector<L> sh;
     nmc::each_shape_range(1, thorough ? 4 : 3, 3, [&](const L& s) { sh.push_back(s); });
     for (auto& a : sh) for (auto& b : sh) f(a, b);
+    std::vector<L> s4;                                                                  // extent-4 boundary: pairs of S(1..2,4) with an extent 4
+    nmc::each_shape_range(1, 2, 4, [&](const L& s) { s4.push_back(s); });
+    for (auto& a : s4) for (auto& b : s4) if (has_extent4(a) || has_extent4(b)) f(a, b);
+    if (thorough) for (auto& p : larger_pairs()) { f(p.first, p.second); if (p.first != p.second) f(p.second, p.first); }
 }
 template <typename F> inline void each_single_shape(bool thorough, F&& f) {
     nmc::each_shape_range(1, thorough ? 4 : 3, 3, [&](const L& s) { f(s); });
     if (!thorough) nmc::each_shape(4, 2, [&](const L& s) { f(s); });
+    nmc::each_shape_range(1, 2, 4, [&](const L& s) { if (has_extent4(s)) f(s); });
+    if (thorough) { f(L{7}); f(L{5, 7}); f(L{2, 3, 4, 5}); f(L{4, 1, 5}); }
 }
 template <typename F> inline void each_outer_pair(bool thorough, F&& f) {
     std::vector<L> sh;
